@@ -31,6 +31,12 @@ def trees():
     m5in = ("mat", ("dedup", X), "m5a")
     m5 = ("mat", ("sel", m5in, ("gt", A_, ("lit", "$k"))), "m5")
     out["nested"] = (m5, {"A": ("proj", m5, ("a", "c")), "B": ("sort", m5in, ((A_, False),))}, False)
+    D0 = ("leaf", "0i")
+    selx = ("sel", X, ("gt", A_, ("lit", "$k")))
+    m7 = ("mat", ("chain", D0, selx), "m7")
+    out["chain-doomed-lhs"] = (m7, {"A": ("sort", m7, ((A_, True),)), "B": ("xfer", ("proj", m7, ("a",)), "it2")}, True)
+    m8 = ("mat", ("chain", selx, D0), "m8")
+    out["chain-doomed-rhs"] = (m8, {"A": ("dedup", m8), "B": ("sel", m8, ("lt", A_, B_))}, True)
     m6 = ("mat", ("proj", X, ("a", "b")), "m6")
     out["chain-shared"] = (m6, {"A": ("chain", m6, m6), "B": ("chain", ("sel", m6, ("gt", A_, ("lit", "$k"))), m6)}, False)
     return out
@@ -86,6 +92,7 @@ def run_history(tname, hist, ctx, valfn, bind=None):
     env.add_iter_leaf("X", "abc", rows, engine="it1", payload=payload)
     stab = valfn("S", None, None)
     env.add_sql_leaf("S", "abc", N, table=stab)
+    env.add_special_leaf("0i", "doomed", "it1", ("a", "b", "c"))
     env.bind = {"$k": valfn("$k", None, None)} if bind is None else dict(bind)
     memo = {}
     M = build(m_prog, env, memo)
